@@ -617,8 +617,13 @@ func (w *worker[T, JobType]) Stop() error {
 		return ErrNotRunningWorker
 	}
 
-	if w.cancel != nil {
-		defer w.cancel()
+	// Restart replaces ctx and cancel under the mutex
+	w.mx.RLock()
+	cancel := w.cancel
+	w.mx.RUnlock()
+
+	if cancel != nil {
+		defer cancel()
 	}
 	defer w.status.Store(stopped)
 
@@ -726,6 +731,10 @@ func (w *worker[T, JobType]) Resume() error {
 }
 
 func (w *worker[T, JobType]) Context() context.Context {
+	// Restart replaces ctx under the mutex
+	w.mx.RLock()
+	defer w.mx.RUnlock()
+
 	return w.ctx
 }
 
